@@ -72,6 +72,17 @@ func makePattern(i int, rng *rand.Rand, mix [3]int, optP int) *patCase {
 	pick := i % total
 	opts := randomOpts(rng, optP)
 	switch {
+	case i%32 == 5 && mix[0] > 0:
+		// the threshold family, walked through deterministically (counts and literal lengths around
+		// the constants of the analysers, also under IgnoreCase)
+		t := &gen.T{R: rng, Let: []rune("abxzAB01")}
+		root := t.ThresholdNth(i / 32)
+		opts &^= int(regexp2.ECMAScript | regexp2.Unicode | regexp2.IgnorePatternWhitespace)
+		p := gen.Finish(root, envOf(opts), false, gen.PrintOpts{})
+		if p == nil {
+			return nil
+		}
+		return &patCase{src: p.Src, opts: opts, pat: p, origin: "template:threshold-count"}
 	case pick < mix[0]:
 		t := &gen.T{R: rng, Let: fullProfile(rng).Letters}
 		k := rng.Intn(len(gen.TemplateNames))
